@@ -26,9 +26,15 @@ func checkC04(w *World, r *Report) {
 		return
 	}
 	// ---- 1. cancel table
+	// evaluated on the exported cancel with the internal cancel (and any wrapper between them)
+	// spliced in: the table is about what a cancel request by id does, however the work is
+	// divided between the functions
 	fn := ro.CancelInt
-	fname := FuncName(fn)
-	res := w.EnumPaths(fn, EnumOpts{Inline: true, Opaque: w.statelessCallee})
+	if ro.CancelAPI != nil {
+		fn = ro.CancelAPI
+	}
+	fname := FuncName(ro.CancelInt)
+	res := w.EnumPaths(fn, EnumOpts{Inline: true, MaxPaths: 20000, Opaque: w.statelessCallee, ForceInline: func(f *ssa.Function) bool { return f == ro.CancelInt }})
 	r.Count("paths", len(res.Paths))
 	J := "recv.jobsByID[arg0]"
 	vars := map[string]string{"has(" + J + ")": "found", J + ".Canceled": "canceled", J + ".Completed": "completed", J + ".Start": "startptr", J + ".sched": "schedptr", J: "found"}
@@ -46,7 +52,8 @@ func checkC04(w *World, r *Report) {
 						n++
 						r.Count("valuations", 1)
 						env := map[string]int64{"found": fd, "canceled": ca, "completed": co, "startptr": st, "schedptr": sc}
-						sel, problem := selectPaths(res.Paths, vars, env, false)
+						// other inputs (the list position of the job, its timer, its tasks) are unconstrained: every consistent path must conform
+						sel, problem := selectPaths(res.Paths, vars, env, true)
 						if problem != "" || len(sel) == 0 {
 							r.Undecided("cancel.table", fname+": cancel table", w.Pos(fn.Pos()), fmt.Sprintf("cannot evaluate on %+v: %s (%d paths)", env, problem, len(sel)))
 							return
@@ -66,6 +73,11 @@ func checkC04(w *World, r *Report) {
 									}
 								case e.Kind == "call" && e.Callee != nil && (e.Callee == ro.Persist || ro.callsWaitListRemoval(e.Callee)):
 								case e.Kind == "call" && isWGMethod(callCommonOf(e.In), "Add"):
+							case (e.Kind == "call" || e.Kind == "defer") && strings.Contains(e.Target, "sync.RWMutex)"):
+							case e.Kind == "call" && e.Spliced:
+								// (kept call effect of a spliced function: its body follows)
+							case e.Kind == "store" && e.Val == "true" && strings.HasPrefix(e.Target, J+".") && !strings.HasSuffix(e.Target, ".Canceled") && !strings.HasSuffix(e.Target, ".Completed"):
+								// the request flag (verdict rule)
 								case e.Kind == "store" && strings.HasPrefix(e.Target, "local"):
 								case e.Kind == "call" || e.Kind == "store" || e.Kind == "mapupdate" || e.Kind == "delete" || e.Kind == "defer":
 									other = e.String()
@@ -117,7 +129,7 @@ func checkC04(w *World, r *Report) {
 	}
 	r.Check(bad == "", "cancel.table", fname+": cancel table", w.Pos(fn.Pos()), fmt.Sprintf("%d classes of (found, canceled, completed, started, scheduler) give the stated result and effect", n), "the cancel table is violated: "+bad)
 	// the delivering goroutine is WaitGroup-paired
-	ro.goPaired(r, "cancel.delivery-paired", fn, false)
+	ro.goPaired(r, "cancel.delivery-paired", ro.CancelInt, false)
 	// HTTP: not found → 404
 	if h := w.FuncByRole("server", "(*server).jobCancel", func(f *ssa.Function) bool { return callsNamed(f, "PipelineRunner).CancelJob") }); h != nil {
 		pr := w.EnumPaths(h, EnumOpts{})
@@ -417,22 +429,34 @@ func checkCanceledVerdict(w *World, r *Report, ro *Roles) {
 	// completion handler turns it into Canceled = true. W is the internal cancel itself (every
 	// delivering path stores the flag) or a wrapper of it (every path with result == nil stores it).
 	// The internal fail-fast cancel after a task failure is not a request (C08: the job ends errored).
+	// Evaluated on the spliced path streams of the request entries: wherever an entry calls the
+	// internal cancel and that call can have acknowledged (result nil — no literal says it is
+	// non-nil), a `<job>.<flag> = true` store of a bool field of the job follows on the path.
+	// recorded = the flags stored after every such call, in every entry.
 	recorded := map[string]bool{}
 	nDeliver := 0
-	var wrapperFn *ssa.Function
-	flagStores := func(p *Path) map[string]bool {
-		here := map[string]bool{}
-		for _, e := range p.Effects {
-			if e.Kind == "store" && strings.HasPrefix(e.Target, "recv.jobsByID[arg0].") && e.Val == "true" {
-				here[strings.TrimPrefix(e.Target, "recv.jobsByID[arg0].")] = true
-			}
+	requestsOK := true
+	requestDetail := ""
+	jobFlag := func(e Effect) string {
+		if e.Kind != "store" || e.Val != "true" {
+			return ""
 		}
-		return here
+		st, ok := e.In.(*ssa.Store)
+		if !ok {
+			return ""
+		}
+		fa, ok := w.resolveAddr(st.Addr).(*ssa.FieldAddr)
+		if !ok || fieldOfAddr(fa).Owner == nil || fieldOfAddr(fa).Owner.Obj().Name() != "PipelineJob" {
+			return ""
+		}
+		return fieldOfAddr(fa).Name
 	}
 	meet := func(here map[string]bool) {
 		nDeliver++
 		if nDeliver == 1 {
-			recorded = here
+			for k := range here {
+				recorded[k] = true
+			}
 			return
 		}
 		for k := range recorded {
@@ -442,58 +466,64 @@ func checkCanceledVerdict(w *World, r *Report, ro *Roles) {
 		}
 	}
 	if ro.CancelInt != nil {
-		cr := w.EnumPaths(ro.CancelInt, EnumOpts{Inline: true, Opaque: w.statelessCallee})
-		for _, p := range cr.Paths {
-			delivers := false
-			for _, e := range p.Effects {
-				if e.Kind == "go" && w.deliversSchedulerCancel(e.In.(*ssa.Go)) {
-					delivers = true
-				}
-			}
-			if delivers {
-				meet(flagStores(p))
-			}
-		}
-		wrapperFn = ro.CancelInt
-		if len(recorded) == 0 {
-			// a wrapper: a direct caller of the internal cancel whose result == nil paths all store the flag
-			for _, cand := range ro.rootFuncs() {
-				if cand == ro.CancelInt || len(findCalls(cand, func(_ string, c *ssa.CallCommon) bool { return c.StaticCallee() == ro.CancelInt })) == 0 {
-					continue
-				}
-				recorded, nDeliver = map[string]bool{}, 0
-				wr := w.EnumPaths(cand, EnumOpts{})
-				for _, p := range wr.Paths {
-					ack := false
-					for _, l := range p.Lits {
-						if l.Atom.Op == "==" && strings.HasPrefix(l.Atom.L, FuncName(ro.CancelInt)+"(") && l.Atom.R == "nil" && l.Val {
-							ack = true
-						}
-					}
-					if ack && p.End == "return" {
-						meet(flagStores(p))
-					}
-				}
-				if len(recorded) > 0 {
-					wrapperFn = cand
-					break
-				}
-			}
-		}
-	}
-	// every request entry reaches the internal cancel only through W
-	requestsOK := wrapperFn != nil
-	requestDetail := ""
-	if wrapperFn != nil && wrapperFn != ro.CancelInt {
+		prefix := FuncName(ro.CancelInt) + "("
 		for _, entry := range []*ssa.Function{ro.CancelAPI, ro.Shutdown} {
 			if entry == nil {
 				continue
 			}
-			direct := len(findCalls(entry, func(_ string, c *ssa.CallCommon) bool { return c.StaticCallee() == ro.CancelInt })) > 0
-			via := len(findCalls(entry, func(_ string, c *ssa.CallCommon) bool { return c.StaticCallee() == wrapperFn })) > 0
-			if direct || !via {
-				requestsOK = false
-				requestDetail = FuncName(entry) + " calls the internal cancel without recording the request"
+			er := w.EnumPaths(entry, EnumOpts{Inline: true, MaxPaths: 20000, Opaque: func(f *ssa.Function) bool { return f == ro.CancelInt || w.statelessCallee(f) }})
+			if er.Truncated {
+				requestsOK, requestDetail = false, "cannot enumerate "+FuncName(entry)
+				continue
+			}
+			calls := 0
+			for _, p := range er.Paths {
+				for i, e := range p.Effects {
+					if e.Kind != "call" || e.Callee != ro.CancelInt {
+						continue
+					}
+					calls++
+					// did the call fail on this path? (a literal `call(...) == nil` false, also for the error of a tuple result)
+					failed := false
+					for _, l := range p.Lits {
+						if l.Atom.Op == "==" && strings.HasPrefix(l.Atom.L, prefix) && l.Atom.R == "nil" && !l.Val {
+							failed = true
+						}
+					}
+					if failed || p.End != "return" {
+						continue
+					}
+					here := map[string]bool{}
+					for _, e2 := range p.Effects[i+1:] {
+						if f := jobFlag(e2); f != "" && f != "Canceled" && f != "Completed" {
+							here[f] = true
+						}
+					}
+					meet(here)
+				}
+			}
+			if calls == 0 && entry == ro.CancelAPI {
+				requestsOK, requestDetail = false, FuncName(entry)+" never reaches the internal cancel"
+			}
+		}
+		// the internal cancel itself may record the request on every delivering path
+		if len(recorded) == 0 {
+			nDeliver = 0
+			cr := w.EnumPaths(ro.CancelInt, EnumOpts{Inline: true, Opaque: w.statelessCallee})
+			for _, p := range cr.Paths {
+				delivers := false
+				here := map[string]bool{}
+				for _, e := range p.Effects {
+					if e.Kind == "go" && w.deliversSchedulerCancel(e.In.(*ssa.Go)) {
+						delivers = true
+					}
+					if f := jobFlag(e); f != "" && f != "Canceled" && f != "Completed" {
+						here[f] = true
+					}
+				}
+				if delivers {
+					meet(here)
+				}
 			}
 		}
 	}
@@ -587,7 +617,7 @@ func checkCanceledVerdict(w *World, r *Report, ro *Roles) {
 	switch {
 	case ruleA:
 		r.OK("verdict.acknowledged-cancel-is-reported", key, w.Pos(ro.CancelInt.Pos()),
-			fmt.Sprintf("(A) every acknowledging path of %s stores %s = true on the job under the lock, every cancel request (exported cancel, forced shutdown) goes through it, and %s marks the job canceled on every completing path where it is set — whatever the scheduler returns (cancel between two stages, allow_failure task killed by the cancel, cancel racing with the last task's regular end)", FuncName(wrapperFn), consumed, FuncName(ro.Completed)))
+			fmt.Sprintf("(A) every acknowledging path of %s stores %s = true on the job under the lock, every cancel request (exported cancel, forced shutdown) goes through it, and %s marks the job canceled on every completing path where it is set — whatever the scheduler returns (cancel between two stages, allow_failure task killed by the cancel, cancel racing with the last task's regular end)", "the request entries (exported cancel, forced shutdown)", consumed, FuncName(ro.Completed)))
 	case ruleB:
 		r.OK("verdict.acknowledged-cancel-is-reported", key, badPos,
 			fmt.Sprintf("(B) on all %d return paths of the scheduler that took the `cancelled == 1` edge a non-nil result is returned", nCancel))
